@@ -143,7 +143,7 @@ def cases(tier, seed):
     out = []
     kinds = ["flat", "pretwisted", "cambered", "dihedral", "cambered_dihedral", "displaced_xz", "displaced_y"]
     raps = [0.0, 0.25, 0.5, 0.6, 1.0]
-    reps = 2 if tier == "quick" else 12
+    reps = 2 if tier == "quick" else 36
     for rep in range(reps):
         for kind in kinds:
             for half in ("left", "full"):
@@ -151,7 +151,7 @@ def cases(tier, seed):
                 rap = raps[int(rng.integers(len(raps)))]
                 out.append(dict(kind="default", mesh_kind=kind, mesh=spec, sym=(half == "left"), rap=rap, with_keys=bool(rng.integers(2)),
                                 ncp=int(rng.integers(1, 7))))
-    reps = 2 if tier == "quick" else 14
+    reps = 2 if tier == "quick" else 42
     for rep in range(reps):
         for dv in DVS:
             for half in ("left", "full"):
@@ -163,7 +163,7 @@ def cases(tier, seed):
                 ncp = int(rng.integers(1, 7))
                 out.append(dict(kind="single", dv=dv, mesh_kind=kind, mesh=spec, sym=(half == "left"), rap=rap, ncp=ncp, val=rand_vals(rng, dv, ncp, spec),
                                 rap_key=bool(rap != 0.25 or rng.integers(2))))
-    n = 30 if tier == "quick" else 300
+    n = 30 if tier == "quick" else 900
     for k in range(n):
         half = "left" if k % 2 else "full"
         spec = base_spec(rng, "flat" if k % 3 else "displaced_xz", half)
@@ -171,14 +171,14 @@ def cases(tier, seed):
         sub = [dv for dv in DVS if rng.random() < 0.5] or ["sweep"]
         ncp = int(rng.integers(1, 7))
         out.append(dict(kind="combo", mesh=spec, sym=(half == "left"), rap=rap, ncp=ncp, vals={dv: rand_vals(rng, dv, ncp, spec) for dv in sub}))
-    n = 16 if tier == "quick" else 120
+    n = 16 if tier == "quick" else 360
     for k in range(n):
         half = "left" if k % 2 else "full"
         spec = base_spec(rng, "flat", half)
         out.append(dict(kind="spline", mesh=spec, sym=(half == "left"), ncp=int(rng.integers(1, 7)), fem="tube" if k % 2 else "wingbox",
                         value=float(np.round(rng.uniform(0.2, 2.0), 4)), _cost=3))
     # shears with varying control points: each section is translated rigidly
-    n = 10 if tier == "quick" else 60
+    n = 10 if tier == "quick" else 180
     for k in range(n):
         half = "left" if k % 2 else "full"
         # a varying z shear gives the reference axis dihedral, so cambered chords would hit the rotate_x finding
